@@ -68,6 +68,18 @@ CHECKS = {
         ref="3/C08",
         technique="deterministic simulation with an independent in-process peer (differential interop), seeded search",
     ),
+    "C20": dict(
+        level="exploration",
+        text=("T = 2..32 real caller threads run operations from a 70-entry catalogue over one shared world (eagerly and lazily "
+              "built keys, shared key sets, default/custom registries, algorithm singletons); every thread switch is decided by "
+              "a seeded scheduler at sys.settrace line/opcode events inside joserfc (sequential histories, single-pre-emption "
+              "sweeps, PCT d<=3, random switching). Oracle: each call == its isolated execution, products verify at the "
+              "reference peer, per-call randomness distinct, post-run observable state == sequential reference run, later "
+              "calls on the shared objects still succeed. Violations are minimised to (operations, decision list) and replay "
+              "exactly. Seeded search over schedules: evidence, not proof."),
+        ref="3/C20",
+        technique="deterministic simulation: seeded thread scheduler (baton passing at settrace pre-emption points), isolation-baseline + reference-run oracles, ddmin over schedule",
+    ),
 }
 
 NOT_APPLICABLE = {
